@@ -265,6 +265,11 @@ func (f *FSM) openDBFile(dbPath string) error {
 	}
 
 	f.db = boltDB
+
+	// The fast transaction tracker knows nothing about the writes that
+	// produced this database file.
+	f.fastTxnTracker.forgetModifications(f.latestIndex.Load())
+
 	return nil
 }
 
